@@ -282,6 +282,7 @@ pub fn cases(tier: Tier) -> Vec<Case> {
 }
 
 pub fn run(ctx: &mut Ctx) {
+    ctx.confirm_runs = 2;
     ctx.assume("any error returned by run() at start-up counts as 'configuration refused'; trackers that start are exercised over loopback with the C06/C16 clients and readers");
     ctx.assume("WS has no fixed reply buffer and is not anchored by the property");
     ctx.run_regress::<Case, _>("configs", prop);
